@@ -12,6 +12,8 @@ Init == cid \in 1..Len(Cases) /\ verdict = <<>>
 AccFn(rows, N) == [v \in 0..(N - 1) |-> [j \in 0..3 |-> rows[v + 1][j + 1]]]
 LmFn(pairs) == [v \in {pairs[i][1] : i \in 1..Len(pairs)} |-> (CHOOSE i \in 1..Len(pairs) : pairs[i][1] = v) ]
 LmOf(pairs) == LET idx == LmFn(pairs) IN [v \in DOMAIN idx |-> pairs[idx[v]][2]]
+\* two latter maps describe the same graph: same keys, same successor sets, no duplicates (the order inside a list is not specified)
+SameLmap(a, b) == DOMAIN a = DOMAIN b /\ \A v \in DOMAIN a : ToSet(a[v]) = ToSet(b[v]) /\ Len(a[v]) = Len(b[v])
 \* c: k, live (before), ins, del, scores (recorded before the call, N x 4), out, removed = <<former, latter>>, acc_after (N x 4 rows),
 \*    lmap_after (list of <<v, successors>>), dup (the latter map listed some key twice)
 Judge(c) ==
@@ -32,9 +34,9 @@ Judge(c) ==
               (IF a \notin ArcsOfAcc(acc, N) THEN <<"removed-arc-did-not-exist">>
                ELSE (IF m[a[1]][a[2] % 4] # MaxOf(m, N) THEN <<"removed-arc-not-maximal">> ELSE <<>>)
                  \o (IF after # AccRemove(acc, a[1], a[2]) THEN <<"accessor-changed-elsewhere">> ELSE <<>>)
-                 \o (IF c.dup \/ lma # LmapRemove(lm, a[1], a[2]) THEN <<"latter-map-changed-elsewhere">> ELSE <<>>))
+                 \o (IF c.dup \/ ~SameLmap(lma, LmapRemove(lm, a[1], a[2])) THEN <<"latter-map-changed-elsewhere">> ELSE <<>>))
               \o (IF Cardinality(ArcsOfAcc(after, N)) # Cardinality(ArcsOfAcc(acc, N)) - 1 THEN <<"not-exactly-one-arc">> ELSE <<>>)
-              \o (IF c.dup \/ LmapOfAcc(after, N) # lma THEN <<"views-disagree">> ELSE <<>>))
+              \o (IF c.dup \/ ~SameLmap(LmapOfAcc(after, N), lma) THEN <<"views-disagree">> ELSE <<>>))
 Check == /\ verdict = <<>> /\ verdict' = (LET v == Judge(Cases[cid]) IN IF v = <<>> THEN <<"ok">> ELSE v)
          /\ PrintT(ToJson([cid |-> cid, verdict |-> verdict'])) /\ UNCHANGED cid
 Next == Check
